@@ -69,24 +69,42 @@ def run_harnesses(harnesses, jobs=8, timeout=3000, playback=False):
 
 
 def parse(out, harnesses):
-    """split Kani output per harness"""
-    res = {}
-    # blocks start with "Checking harness <name>..."
+    """Per-harness status.  Under -j the per-harness blocks interleave, so the authoritative source is the final
+    summary (`Verification failed for - <name>` + `Complete - N successfully verified harnesses, M failures, T total`);
+    blocks are used for details when they can be attributed."""
     out = re.sub(r'^Thread \d+: ', '', out, flags=re.M)
+    res = {}
+    failed = set(m.group(1).strip() for m in re.finditer(r'^Verification failed for - (\S+)', out, flags=re.M))
+    mt = re.search(r'Complete - (\d+) successfully verified harnesses, (\d+) failures, (\d+) total', out)
+    blocks = {}
     parts = re.split(r'^Checking harness ', out, flags=re.M)
     for blk in parts[1:]:
         name = blk.split('...', 1)[0].strip()
-        status = 'UNKNOWN'
-        if re.search(r'VERIFICATION:- SUCCESSFUL', blk):
-            status = 'SUCCESS'
-        elif re.search(r'VERIFICATION:- FAILED', blk):
+        blocks[name] = blk
+    for h in harnesses:
+        fn = full_name(h)
+        blk = blocks.get(fn, '')
+        if mt is None:
+            status = 'NOT-RUN'
+        elif fn in failed:
             status = 'FAILURE'
-        # unwinding assertion failures mean the bound was too small => undecided, not a violation
-        if status == 'FAILURE' and re.search(r'unwinding assertion', blk) and not re.search(r'Failed Checks: (?!.*unwinding)', blk):
-            status = 'UNWIND'
+        else:
+            status = 'SUCCESS'
         m = re.search(r'Verification Time: ([0-9.]+)s', blk)
-        res[name] = {'status': status, 'output': blk, 'time_s': float(m.group(1)) if m else None}
+        res[fn] = {'status': status, 'output': blk if blk else out[-3000:], 'time_s': float(m.group(1)) if m else None}
     return res
+
+
+def classify_failure(blk):
+    """A FAILED verdict is a violation only if a property check failed; resource problems and unwinding are undecided."""
+    if re.search(r'CBMC failed|out of memory|timed out|CBMC timed out|Killed', blk):
+        return 'RESOURCE'
+    fails = re.findall(r'Failed Checks: (.*)', blk)
+    if not fails:
+        return 'UNKNOWN'
+    if all('unwinding assertion' in f for f in fails):
+        return 'UNWIND'
+    return 'FAILURE'
 
 
 def extract_playback(blk):
@@ -123,7 +141,7 @@ def run_for_property(prop, tier):
     sel = [h for h in reg if prop in h['props'] and (tier == 'thorough' or h.get('tier', 'quick') == 'quick')]
     if not sel:
         return None
-    r = run_harnesses(sel)
+    r = run_harnesses(sel, jobs=6)
     per = parse(r['out'], sel)
     hs = []
     compile_failed = not per and r['rc'] != 0
@@ -134,20 +152,26 @@ def run_for_property(prop, tier):
                'status': pr['status'] if pr else ('BUILD-FAILED' if compile_failed else 'NOT-RUN'), 'wall_s': pr['time_s'] if pr else None,
                'output': pr['output'] if pr else r['out'][-3000:]}
         hs.append(ent)
-    # counterexamples for failures
+    # every harness reported as failed is re-run alone (sequential, concrete playback on) and classified
     failing = [h for h, e in zip(sel, hs) if e['status'] == 'FAILURE']
-    if failing:
-        r2 = run_harnesses(failing, playback=True)
-        per2 = parse(r2['out'], failing)
-        for h in failing:
-            blk = per2.get(full_name(h), {}).get('output', '')
-            vals = extract_playback(blk) or extract_playback(r2['out'])
-            ent = [e for e in hs if e['name'] == h['name']][0]
-            if vals is not None:
-                nr = native_replay(h, vals)
-                ent['witness'] = {'concrete_values': vals, 'replayed': nr['assertion_failed_natively'], 'native_replay': nr}
-            else:
-                ent['witness'] = {'concrete_values': None, 'replayed': False, 'note': 'Kani printed no concrete playback'}
+    for h in failing:
+        ent = [e for e in hs if e['name'] == h['name']][0]
+        r2 = run_harnesses([h], playback=True, timeout=3000)
+        blk = re.sub(r'^Thread \d+: ', '', r2['out'], flags=re.M)
+        ent['output'] = blk[-6000:]
+        cls = classify_failure(blk)
+        if 'VERIFICATION:- SUCCESSFUL' in blk and cls != 'FAILURE':
+            ent['status'] = 'SUCCESS'
+            continue
+        ent['status'] = cls
+        if cls != 'FAILURE':
+            continue
+        vals = extract_playback(blk)
+        if vals is not None:
+            nr = native_replay(h, vals)
+            ent['witness'] = {'concrete_values': vals, 'replayed': nr['assertion_failed_natively'], 'native_replay': nr}
+        else:
+            ent['witness'] = {'concrete_values': None, 'replayed': False, 'note': 'Kani printed no concrete playback'}
     summary = {'harnesses': len(hs), 'complete': sum(1 for e in hs if e['complete']), 'bounded': sum(1 for e in hs if not e['complete']),
                'wall_s': round(r['wall_s'], 1), 'backend': 'CBMC 6.11 + SAT (via Kani 0.68)'}
     return {'cmd': '(scratch copy of /repo + injected child modules) ' + r['cmd'], 'harnesses': hs, 'summary': summary,
